@@ -105,7 +105,83 @@ func resolveExe(z *workload.Zoo, exe *ggql.Executable, op string, vars map[strin
 	return
 }
 
+// runSubscriptions is the subscription family of C11: one parsed subscription
+// document is resolved several times (each call registers another subscriber,
+// identified through the variable), then events are published; a twin world
+// does the same with a fresh parse per call. The deliveries must be identical:
+// the registration of a subscriber must not depend on the parsed document
+// having been resolved before.
+func (c C11) runSubscriptions(t *tape.Tape, opt core.RunOpt) (res core.Result) {
+	envA, envB := &seqEnv{}, &seqEnv{}
+	wa, errA := workload.NewSubWorld(envA)
+	wb, errB := workload.NewSubWorld(envB)
+	if errA != nil || errB != nil {
+		res.Fatal = "cannot load the subscription schema"
+		return
+	}
+	sel := t.Draw(len(workload.SubSelections))
+	topic := []string{"", "a", "b"}[t.Draw(3)]
+	src, op := wa.SubscriptionDoc(sel, topic)
+	res.Evaluations = 1
+	res.Sig = core.Hash64("c11sub", src)
+	var hist []string
+	defer func() {
+		if opt.WantSample {
+			res.Sample = map[string]interface{}{"family": "one parsed subscription document resolved several times", "document": src, "calls": hist}
+		}
+	}()
+	exe, err := wa.Root.ParseExecutableString(src)
+	if err != nil {
+		res.Fatal = "subscription document rejected: " + err.Error()
+		return
+	}
+	printed0 := printedBlocks(exe)
+	n := 2 + t.Draw(3)
+	for sid := 1; sid <= n; sid++ {
+		for _, w := range []*workload.SubWorld{wa, wb} {
+			w.AddSub(&workload.SimSub{ID: sid, Topic: topic, SelIndex: sel})
+		}
+		vars := map[string]interface{}{"sid": sid}
+		_, ea := wa.Root.ResolveExecutable(exe, op, vars)
+		fresh, ferr := wb.Root.ParseExecutableString(src)
+		if ferr != nil {
+			res.Fatal = ferr.Error()
+			return
+		}
+		_, eb := wb.Root.ResolveExecutable(fresh, op, map[string]interface{}{"sid": sid})
+		res.Evaluations += 2
+		hist = append(hist, fmt.Sprintf("resolve #%d with sid=%d -> err=%v (fresh parse: err=%v)", sid, sid, ea, eb))
+		if (ea == nil) != (eb == nil) {
+			res.Violate("C11", "subscription_re_resolve_differs", fmt.Sprintf("resolving the parsed subscription document for subscriber %d: error %v, a freshly parsed copy: %v\ndocument:\n%s", sid, ea, eb, src), nil)
+			return
+		}
+		if p := printedBlocks(exe); p != printed0 {
+			res.Violate("C11", "printed_form_changed", fmt.Sprintf("after registering subscriber %d the subscription document prints differently:\n%s\nvs after parsing:\n%s", sid, p, printed0), nil)
+			return
+		}
+		// publish after every registration
+		ev := 100 + sid
+		envA.log, envB.log = envA.log[:0], envB.log[:0]
+		ca, pa := wa.Publish(topic, ev)
+		cb, pb := wb.Publish(topic, ev)
+		da, db := fmt.Sprint(envA.log), fmt.Sprint(envB.log)
+		hist = append(hist, fmt.Sprintf("publish(%q, %d) -> count=%d err=%v deliveries=%s", topic, ev, ca, pa != nil, da))
+		if ca != cb || (pa == nil) != (pb == nil) || da != db {
+			res.Violate("C11", "subscription_deliveries_differ_after_re_resolve",
+				fmt.Sprintf("one parsed subscription document resolved %d times (one subscriber each), then publish(%q, event %d):\n  count=%d err=%v deliveries %s\nwith a fresh parse per subscriber:\n  count=%d err=%v deliveries %s\ndocument:\n%s", sid, topic, ev, ca, pa, da, cb, pb, db, src), nil)
+			return
+		}
+	}
+	res.NonTrivial = true
+	res.Steps = n
+	res.Count("probe_subscription_document_re_resolved", 1)
+	return
+}
+
 func (c C11) Run(t *tape.Tape, opt core.RunOpt) (res core.Result) {
+	if t.Bool(1, 8) {
+		return c.runSubscriptions(t, opt)
+	}
 	strat := []workload.Strategy{workload.StratInterface, workload.StratAny, workload.StratReflect}[t.Draw(3)]
 	q := workload.GenZoo(t)
 	z, err := workload.NewZoo(q, strat)
